@@ -9,7 +9,10 @@ open YaegiVerif.Method
     efcbde2 (method depth compared with the field depth), a60b058 (fields promoted through embedded
     fields only, shallowest first), 3081633 (receiver bound when the method value is made),
     16a5ac7 (a value stored in an interface is copied), 32d4f06 (the receiver of a method selected on
-    the value held by an interface is reached at each call) -/
+    the value held by an interface is reached at each call), 43e97a5 (several fields at the shallowest
+    depth: ambiguous), 79ed061 (implements tests the receiver kind), 5c3b0c5 (type switch cases checked,
+    pointer-receiver rejection for own methods only), ccca582 (assertion to a host interface wraps the
+    held value) -/
 def facts : Facts :=
   { defaultSwap := false,
     clauseChain := .nextTest,
@@ -19,8 +22,13 @@ def facts : Facts :=
     fieldPick := .shallowest,
     containsNamesOnly := true,
     methodWinsCond := "d >= 0 && d < len(ti)-1 => { goto tryMethods }",
-    ambiguousCond := "d == len(ti)-1",
+    ambiguousCond := "d == len(ti)-1 || n.typ.fieldCount(n.child[1].ident, len(ti)-1) > 1",
     fieldDepthMinus := 1,
+    fieldAmbiguityCheck := true,
+    implementsChecksRecv := true,
+    assertPtrOwnOnly := true,
+    tswitchCasesChecked := true,
+    assertHostWrapsHeld := true,
     recvBind := { atCreation := true, ptrToVal := .set, valToPtr := .slot, same := .set, call := .set,
                   lateNilNode := true, lateCall := .set, ifaceWrapHeld := true },
     ifaceCopies := true }
@@ -44,6 +52,11 @@ def oldFacts : Facts :=
     methodWinsCond := "d >= 0 && d < len(ti) => { goto tryMethods }",
     ambiguousCond := "d == len(ti)",
     fieldDepthMinus := 0,
+    fieldAmbiguityCheck := false,
+    implementsChecksRecv := false,
+    assertPtrOwnOnly := false,
+    tswitchCasesChecked := false,
+    assertHostWrapsHeld := false,
     recvBind := { atCreation := false, ptrToVal := .set, valToPtr := .set, same := .set, call := .slot,
                   lateNilNode := false, lateCall := .slot, ifaceWrapHeld := false },
     ifaceCopies := false }
@@ -61,13 +74,15 @@ def sourceHashes : List (String × String) :=
    ("itype.getMethod", "7c8adb8c9829a9d1"),
    ("itype.methodDepth", "1d0e71e467a5ef05"),
    ("itype.methodCount", "a61f4bc597b944e2"),
+   ("itype.fieldCount", "b30bbc94ae86fc3a"),
+   ("itype.needsPtrFor", "4e3dced6269f46e3"),
    ("itype.methods", "5ee74f81a5c4777a"),
    ("methodSet.contains", "4962c458fd56665c"),
-   ("itype.implements", "e9e5c356951a363a"),
+   ("itype.implements", "4f9ec481094a6afb"),
    ("lookupFieldOrMethod", "775975244d11efe2"),
-   ("matchSelectorMethod", "289e249d29992d7c"),
+   ("matchSelectorMethod", "de85f05001daa03f"),
    ("getDefault", "e432131cb00f89f6"),
-   ("typeAssert", "3464a4b803229c6c"),
+   ("typeAssert", "90e50bd038426751"),
    ("_case", "60fb01345bd252bd"),
    ("implementsInterface", "596e652087668932"),
    ("canAssertTypes", "4f6cf211377634a0"),
@@ -76,15 +91,17 @@ def sourceHashes : List (String × String) :=
    ("lookupMethodValue", "375ef5678906848e"),
    ("stripReceiverFromArgs", "bb4ae1a98125a1a0"),
    ("genFunctionWrapper", "033ce6ccd17871ac"),
-   ("genInterfaceWrapper", "3467ccc00694c19f"),
+   ("genInterfaceWrapper", "39c789f3e29ad824"),
+   ("genInterfaceWrapperValue", "d62e22eba6a3bbbe"),
    ("copyDeferArg", "d8586ba1ea695e54"),
-   ("typecheck.typeAssertionExpr", "c9bf8687572eccaf"),
+   ("typecheck.typeAssertionExpr", "8b7c9896676483c6"),
    ("genDestValue", "6d332c89aa45b5ab"),
    ("genValueInterface", "1ef4b98ccbd7c706"),
    ("genValueRecv", "a3dad7fc975e9eb7"),
-   ("cfg.go case selectorExpr", "768dfe88e453fb73"),
+   ("cfg.go case selectorExpr", "fa5a2fe359c5e2de"),
    ("cfg.go pre-order case switchStmt, typeSwitch", "773e4a50ec016090"),
-   ("cfg.go post-order case switchStmt", "dd29a2c95d07e79f"),
+   ("cfg.go post-order case switchStmt", "93061192f5364e43"),
+   ("cfg.go post-order case typeSwitch", "3c67baf823d5a872"),
    ("genFunctionWrapper receiver binding", "0eced356b3dccc81")]
 
 end YaegiVerif.Expected.C05
